@@ -82,8 +82,11 @@ def TPrim.ok (D : Int → Prop) (y : TTx W Wt) : TPrim W Wt → Prop
   | .rd _ => True
   | .newWord w => AMap.get y.heap.wids w = none
   | .wiSet i v => (∀ d, ¬ D d → AMap.get (pvalPosting y.heap (some v)) d = AMap.get (y.heap.posting i) d) ∧
-      (∀ o, v = .ref o → AMap.get y.heap.wordinfo i = some (.ref o) ∨ (AMap.get y.heap.tree o).isSome)
-  | .wiErase i => ∀ d, ¬ D d → AMap.get (y.heap.posting i) d = none
+      (∀ o, v = .ref o → AMap.get y.heap.wordinfo i = some (.ref o) ∨
+        ((AMap.get y.heap.tree o).isSome ∧ o.1 = y.me)) ∧
+      (∀ o, AMap.get y.heap.wordinfo i = some (.ref o) → v = .ref o)
+  | .wiErase i => (∀ d, ¬ D d → AMap.get (y.heap.posting i) d = none) ∧
+      (∀ o, AMap.get y.heap.wordinfo i = some (.ref o) → AMap.get y.heap.tree o = some [])
   | .dictPutR i m d _ => AMap.get y.heap.wordinfo i = some (.dict m) ∧ D d
   | .dictDelR i m d => AMap.get y.heap.wordinfo i = some (.dict m) ∧ D d
   | .dictDelE i m d => AMap.get y.heap.wordinfo i = some (.dict m) ∧ D d ∧ AMap.erase m d = []
@@ -96,8 +99,10 @@ def TPrim.ok (D : Int → Prop) (y : TTx W Wt) : TPrim W Wt → Prop
   | .tdlChange _ => True
   | .niRemove d => D d
   | .niAdd d => D d
-  | .treePut _ d _ => D d
-  | .treeDel _ d => D d
+  | .treePut o d _ => D d ∧ ((∃ i, AMap.get y.heap.wordinfo i = some (.ref o)) ∨
+      (o.1 = y.me ∧ (AMap.get y.heap.tree o).isSome))
+  | .treeDel o d => D d ∧ ((∃ i, AMap.get y.heap.wordinfo i = some (.ref o)) ∨
+      (o.1 = y.me ∧ (AMap.get y.heap.tree o).isSome))
   | .alloc _ => True
 
 /-- `y` is obtained from `x` by valid primitive steps -/
@@ -124,6 +129,7 @@ theorem Reach.mono {D D' : Int → Prop} (hD : ∀ d, D d → D' d) {x y : TTx W
       | exact ⟨hp.1, hD _ hp.2.1, hp.2.2⟩
       | exact fun d hd => hp d (fun h => hd (hD d h))
       | exact ⟨fun d hd => hp.1 d (fun h => hd (hD d h)), hp.2⟩
+      | exact ⟨hD _ hp.1, hp.2⟩
 
 /-- a property preserved by every valid step holds along `Reach` -/
 theorem Reach.induct {D : Int → Prop} {x y : TTx W Wt} (P : TTx W Wt → Prop) (h0 : P x)
@@ -159,10 +165,14 @@ theorem Reach.niRemove (h : Reach D x y) {d : Int} (hd : D d) : Reach D x (y.niR
   Reach.step (.niRemove d) h hd
 theorem Reach.niAdd (h : Reach D x y) {d : Int} (hd : D d) : Reach D x (y.niAdd d) :=
   Reach.step (.niAdd d) h hd
-theorem Reach.treePut (h : Reach D x y) (o : Oid) {d : Int} (hd : D d) (f : Wt) : Reach D x (y.treePut o d f) :=
-  Reach.step (.treePut o d f) h hd
-theorem Reach.treeDel (h : Reach D x y) (o : Oid) {d : Int} (hd : D d) : Reach D x (y.treeDel o d) :=
-  Reach.step (.treeDel o d) h hd
+theorem Reach.treePut (h : Reach D x y) (o : Oid) {d : Int} (hd : D d) (f : Wt)
+    (ho : (∃ i, AMap.get y.heap.wordinfo i = some (.ref o)) ∨ (o.1 = y.me ∧ (AMap.get y.heap.tree o).isSome)) :
+    Reach D x (y.treePut o d f) :=
+  Reach.step (.treePut o d f) h ⟨hd, ho⟩
+theorem Reach.treeDel (h : Reach D x y) (o : Oid) {d : Int} (hd : D d)
+    (ho : (∃ i, AMap.get y.heap.wordinfo i = some (.ref o)) ∨ (o.1 = y.me ∧ (AMap.get y.heap.tree o).isSome)) :
+    Reach D x (y.treeDel o d) :=
+  Reach.step (.treeDel o d) h ⟨hd, ho⟩
 theorem Reach.alloc (h : Reach D x y) (m : AMap Int Wt) : Reach D x (y.alloc m).1 :=
   Reach.step (.alloc m) h trivial
 
